@@ -125,6 +125,11 @@ def gen_plan(rng, tier='quick', traces=None):
             pts = [[unhex(pool[ci]['points'][i][0]) + (rng.choice([0.0, 0.0, 1.0, -1.0]) if whole else rng.choice([0.0, 0.0, 0.5, -0.25])),
                     unhex(pool[ci]['points'][i][1])] for i in idx]
             elay = rng.choice(['C', 'F', 'view'])
+            if not whole and rng.random() < 0.25:
+                # expected knees noted down as whole numbers (an integer array) next to a float trace
+                pts = [[float(round(a)), float(round(b))] for a, b in pts]
+                if worlds.integral(pts):
+                    elay = rng.choice(['int64', 'int64+F', 'int64+view'])
             if whole and rng.random() < 0.6 and worlds.integral(pts):
                 elay = rng.choice(['int64', 'int64+F', 'int64+view'])      # expected knee points as integers too
             pool.append({'kind': 'expected', 'curve': ci, 'points': [[fhex(x), fhex(y)] for x, y in pts],
